@@ -98,7 +98,7 @@ def run(rng, tier, model_ok):
         if q and not q.startswith("-") and "\n" not in q:
             queries.append((q, rng.random() < 0.4))
     # values around one and minus one with units that have a plural form, alone and next to other units, in both modes
-    plural_units = ["decade", "century", "millenium", "gallon", "pint", "quart", "cup", "gill", "ton", "acre", "rood", "perch", "hectare", "m", "kg"]
+    plural_units = ["decade", "century", "millenium", "gallon", "pint", "quart", "cup", "gill", "ton", "acre", "rood", "perch", "hectare", "btu", "cable", "link", "m", "kg"]
     for u in plural_units:
         for v in ["1", "0 - 1", "2", "0", "0.5", "0 - 2", "1.0", "3 - 2", "1 - 2", "100 %"]:
             for ex in (False, True):
@@ -107,6 +107,10 @@ def run(rng, tier, model_ok):
         queries.append(("0 - 1 %s/s" % u, True))
         queries.append(("1 / 1 %s" % u, False))
         queries.append(("2 m*%s" % u, False))
+        # nothing above the bar: whatever the value, a unit below the bar is never pluralised
+        for q in ("3 / 2 %s", "2 / 1 %s", "7 / (1 %s * 1 s)", "0 / 1 %s", "(0 - 2) / 4 %s", "5 / 1 %s^2", "(6 / 1 s) to 1/%s" if u in ("decade", "century", "millenium") else "9 / 3 %s"):
+            queries.append((q % u, False))
+            queries.append((q % u, True))
     # diagnostics are placed on the text as typed: blanks before and after the query, several expressions of which some fail
     for e in ["1/0", "(1 m + 1 s) (2 m)", "(2 m) (1 m to s) (7)", "nosuchfact * 2", "1 m + 1 s", "round(1, 2, 3)", "(1/0) (2/0)", "2 ^ 0.5"]:
         for lead in ["", " ", "   ", "     "]:
@@ -174,6 +178,19 @@ def run(rng, tier, model_ok):
                 gotp = [int("".join(str(SUPER.index(c)) for c in run)) for run in re.findall("[%s]+" % "".join(SUPER), it[1])]
                 if sorted(gotp) != sorted(wantp):
                     failures.append({"input": q, "exact": ex, "why": "printed unit powers %s, the unit has powers %s (line %r)" % (gotp, wantp, it[1])})
+        # the plural form is the property's, not the library's: it may differ from the singular only in the part above the bar, only
+        # when exactly one unit stands there, and only when the value is not one
+        for it, r in zip(got, rep["results"]):
+            if it[0] == "line" and "ok" in r:
+                names = r["ok"][2]
+                above = sum(1 for _, p, _ in names if p >= 0)
+                m = re.match(r"-?[\d./]*?…?(?:e-?\d+)?(?: (.*)|(/.*))?$", it[1]) if not ex else None
+                sing, plur = r["unit_text"], r["unit_plural"]
+                printed_unit = it[1][len(it[1]) - len(plur):] if it[1].endswith(plur) else (it[1][len(it[1]) - len(sing):] if it[1].endswith(sing) else None)
+                one = (int(r["ok"][0]), int(r["ok"][1])) == (1, 1)
+                if printed_unit is not None and printed_unit != sing and (above != 1 or one or printed_unit.split("/")[1:] != sing.split("/")[1:]):
+                    failures.append({"input": q, "exact": ex, "why": "the unit is printed as %r, its name is %r: a plural form is due only to a single unit above the bar "
+                                                                     "with a value other than one (units above the bar: %d, value one: %s)" % (printed_unit, sing, above, one)})
         # model case
         exp = [len(got)]
         for it, r in zip(got, rep["results"]):
@@ -198,7 +215,7 @@ def run(rng, tier, model_ok):
     return {
         "evaluations": len(queries), "distinct_nontrivial": len({(q, ex) for q, ex in queries}),
         "rule": "random queries (numeric expressions, mixed expressions with units, calls and casts, quantities over the whole vocabulary, facts, "
-                "malformed and failing queries), plural boundary values, signed magnitudes 1e-30..1e30, unit powers of several digits, blanks around failing queries; 40% of the random ones with --exact, through the real binary; every printed number also read back independently; non-trivial = distinct (query, mode) pairs",
+                "malformed and failing queries), plural boundary values (also with nothing above the bar), signed magnitudes 1e-30..1e30, unit powers of several digits, blanks around failing queries; 40% of the random ones with --exact, through the real binary; every printed number also read back independently; non-trivial = distinct (query, mode) pairs",
         "samples": [{"query": q, "exact": ex, "stdout": o[0][:120]} for (q, ex), o in list(zip(queries, outs))[:6]],
         "mismatches": mismatches, "failures": failures,
         "extra": dict(stats, model_cases_evaluated_in_coq=len(cases), exhaustive=False),
